@@ -99,7 +99,8 @@ def gen_instance(rng, *, d=None, k=None, N=None, vtype="sympy", fdkind=None,
     """Draw one well-posed instance.  Dyadic energies for float value types."""
     dyadic = vtype in ("numpy", "sparse", "numpy_complex")
     d = d or rng.choice([2, 3, 3, 4, 4, 5])
-    sizes = sizes or rng.choice(compositions(d))
+    # energies of different blocks must differ; the dyadic family has 3 levels
+    sizes = sizes or rng.choice([c for c in compositions(d) if len(c) <= (3 if dyadic else 4)])
     nb = len(sizes)
     k = k or rng.choice([1, 1, 2, 2, 3])
     if N is None:
@@ -130,7 +131,14 @@ def gen_instance(rng, *, d=None, k=None, N=None, vtype="sympy", fdkind=None,
     else:
         levels = [Fraction(v) for v in rng.sample(range(-4, 5), rng.randint(2, 6))]
     for _ in range(200):
-        E = [rng.choice(levels) for _ in range(d)]
+        # disjoint, non-empty groups of levels per block => cross-block gaps never vanish
+        pool = list(levels)
+        rng.shuffle(pool)
+        if len(pool) < nb:
+            raise Regenerate("not enough energy levels for the blocks")
+        cuts = sorted(rng.sample(range(1, len(pool)), nb - 1)) if nb > 1 else []
+        groups = [pool[a:b] for a, b in zip([0, *cuts], [*cuts, len(pool)])]
+        E = [rng.choice(groups[sub_idx[i]]) for i in range(d)]
         masks = {}
         if fdkind in ("dict", "array"):
             for b in fd_blocks:
